@@ -28,7 +28,21 @@ ASSUMPTIONS = [
 FLOORS = {"uncovered-nested": 0.2, "cant-delete-dropped": 0.1, "patch-nonempty": 0.5}
 
 
-def acl_from(rnd, rules, skip=30):
+def keys_in(tree, ctx, acc=None):
+    """rule id -> first-placeholder words seen in the tree (so that a concrete-key ACL rule really meets a row)"""
+    acc = {} if acc is None else acc
+    for row, ch in tree.items():
+        cl = ctx.classify(row)
+        if cl is None:
+            continue
+        r, key = cl
+        if key:
+            acc.setdefault(r["id"], []).append(key[0].split(" ")[0])
+        keys_in(ch, ctx.child(r, row), acc)
+    return acc
+
+
+def acl_from(rnd, rules, skip=30, seen_keys=None):
     out = []
     for r in rules:
         if r.get("glob") or rnd.chance(skip):
@@ -38,14 +52,15 @@ def acl_from(rnd, rules, skip=30):
             toks = toks[:-1] + ["~"]
         elif rnd.chance(20) and "*" in toks:
             # a rule for one concrete key: overlaps partially with another generator's wildcard rule for the same head
-            toks[toks.index("*")] = rnd.choice(RL.WORDS + ["*/[a-z]+/", "*/[0-9]+/", "*/[a-z]+/"])
+            present = (seen_keys or {}).get(r.get("id"), [])
+            toks[toks.index("*")] = rnd.choice((present * 3 if present else RL.WORDS) + ["*/[a-z]+/", "*/[0-9]+/", "*/[a-z]+/"])
         if r["children"]:
             if r["children"][0].get("ordered"):
                 ch = [RA.acl_rule(["rule", "~"])] if rnd.chance(70) else [RA.acl_rule(["~"], glob=True)]
             elif rnd.chance(25):
                 ch = [RA.acl_rule(["~"], glob=True)]
             else:
-                ch = acl_from(rnd, r["children"])
+                ch = acl_from(rnd, r["children"], seen_keys=seen_keys)
         else:
             ch = []
         out.append(RA.acl_rule(toks, ch, cd=rnd.choice([None, 0, 1, 1])))
@@ -61,11 +76,13 @@ def _cases(draw):
     old = RL.gen_tree(rnd, ctx)
     new = RL.mutate(rnd, ctx, old)
     acls = []
+    seen = keys_in(old, ctx)
     for i in range(rnd.randint(1, 3)):
-        a = acl_from(rnd, rules) or (acl_from(rnd, rules, skip=0) if i == 0 else [])
+        a = acl_from(rnd, rules, seen_keys=seen) or (acl_from(rnd, rules, skip=0, seen_keys=seen) if i == 0 else [])
         if a:
             acls.append(["G%d" % i, a])
-    return {"vendor": vendor, "rules": rules, "old": RL.plain(old), "new": RL.plain(new), "acls": acls}
+    return {"vendor": vendor, "rules": rules, "old": RL.plain(old), "new": RL.plain(new), "acls": acls,
+            "acl_indents": [rnd.choice([0, 0, 4, 8]) for _ in acls]}
 
 
 def strategy(tier):
@@ -113,7 +130,11 @@ def check(case):
     rev, exitw = sut.vendor_words(vendor)
     rb = sut.make_rb(RL.rule_text(rules), vendor)
     named = [(n, a) for n, a in case["acls"]]
-    atext = RA.combined_text(named)
+    # merged through the production path (RunGeneratorResult.acl_text), each generator's literal with its own base indentation
+    atext = sut.production_acl_text(named, case.get("acl_indents"))
+    if atext != RA.combined_text(named):
+        raise Violation("acl-merge-text", "the combined ACL text differs from 'every line of every generator, dedented, tagged with its "
+                        "generator name'", {"got": atext, "expected": RA.combined_text(named)})
     acl = compile_acl_text(atext, vendor)
     actx = RA.ACtx.top(named)
     old, new = RL.to_odict(case["old"]), RL.to_odict(case["new"])
@@ -141,7 +162,7 @@ def check(case):
         elif nd:
             c = ctx
             for b in path[:-1]:
-                c = c.child(c.classify(b)[0])
+                c = c.child(c.classify(b)[0], b)
             ident = c.ident(path[-1])
             in_new = _get(new, path[:-1])
             lacks = in_new is None or not any(c.ident(r) == ident for r in in_new)
